@@ -63,6 +63,10 @@ Templates ==
     Tpl("LSTM", <<AI("hidden_size", 3), ASs("activations", <<"relu", "relu", "relu">>)>>, <<"X3", "=lw", "=lr", "=lb">>, <<"Y4", "H3", "H3">>),
     Tpl("LSTM", <<AI("hidden_size", 3), ASs("activations", <<"relu", "relu", "relu">>)>>, <<"X3", "=lw", "=lr">>, <<"Y4", "", "H3">>),               \* middle output skipped
     Tpl("RNN", <<AI("hidden_size", 3), ASs("activations", <<"relu">>)>>, <<"X3", "=rw", "=rr">>, <<"Y4", "H3">>),
+    \* the FIRST output omitted (only the final state is used) on two more operators: a program may hold several such nodes, of
+    \* different types and attributes - each node is its own operator whatever its first output is called
+    Tpl("RNN", <<AI("hidden_size", 3), ASs("activations", <<"relu">>)>>, <<"X3", "=rw", "=rr">>, <<"", "H3">>),
+    Tpl("LSTM", <<AI("hidden_size", 3), ASs("activations", <<"relu", "relu", "relu">>)>>, <<"X3", "=lw", "=lr", "=lb">>, <<"", "H3">>),
     \* sequences of ONE step (batch 2): Y and Y_h hold the same values in different shapes
     Tpl("Unsqueeze", <<>>, <<"M", "=ax0">>, <<"X1">>),
     Tpl("Squeeze", <<>>, <<"Y1", "=ax01">>, <<"M">>),
